@@ -88,6 +88,8 @@ var nestedPool = []Request{
 	{Kind: "view", Layout: "a", View: "b/c"}, {Kind: "view", Layout: "a/b", View: "c"}, {Kind: "view", Layout: "a", View: "c"},
 	{Kind: "layout", Layout: "a"}, {Kind: "layout", Layout: "a/b"},
 	{Kind: "view", Layout: "default", View: "bad"},
+	// a layout and a view of the same name, only one of which has a directory
+	{Kind: "view", Layout: "v2", View: "v2"}, {Kind: "view", Layout: "alt", View: "alt"}, {Kind: "layout", Layout: "v1"}, {Kind: "view", Layout: "default", View: "v1"},
 }
 
 // executor abstracts html/text templates.
